@@ -610,7 +610,8 @@ def directed_cases():
              ops=["get"] * 12, cuts=[0], pickle_state=False, order="interleaved"),
     ] + [json.load(open(os.path.join(FINDINGS, f)))["case"]
          for f in ("C16-random-snapshot-shares-config-for-trial-id.json",      # F-C16-7
-                   "C16-gp-second-restore-from-same-snapshot.json")            # F-C16-8
+                   "C16-gp-second-restore-from-same-snapshot.json",            # F-C16-8
+                   "C16-gp-snapshot-shares-skip-optimization-predicate.json")  # F-C16-9
          if os.path.exists(os.path.join(FINDINGS, f))]
 
 
